@@ -517,3 +517,86 @@ SCENARIOS.append(Scenario("C18.nn.sequential_naming", s_sequential_naming,
                           [("onnxscript/nn/_sequential.py", "Sequential.__init__"), ("onnxscript/nn/_sequential.py", "Sequential._register_child"),
                            ("onnxscript/nn/_sequential.py", "Sequential._set_name"), ("onnxscript/nn/_sequential.py", "Sequential.forward")],
                           assumptions=["tree shapes: root -> Sequential(other, leaf), Sequential(Sequential(other, leaf)), ModuleList([Sequential(other, leaf)]); names symbolic"]))
+
+
+def s_lift_initializers(ctx):
+    """lift_initializers_to_constants(graph): afterwards the function-body graph has no embedded initializer (only those
+    that are explicit inputs stay), every lifted value is the output of ONE new Constant node carrying its tensor — the
+    SAME value object, so every use stays valid — and the Constant nodes precede every existing node."""
+    import onnx_ir as ir
+    b = _b()
+    I = Interp(ctx)
+    n_init = ctx.choose(4, "number of initializers")
+    existing_nodes = ctx.choose(3, "number of nodes already in the graph")
+    vals, inputs = [], []
+    for i in range(n_init):
+        v = SObj(ir.Value, f"init{i}")
+        has_data = ctx.choose(2, f"initializer {i} has data") == 0
+        v.fields.update(name=f"w{i}", const_value=(f"tensor{i}" if has_data else None))
+        v.has_data = has_data
+        v.is_input = ctx.choose(2, f"initializer {i} is also a graph input") == 1
+        vals.append(v)
+        if v.is_input:
+            inputs.append(v)
+    plain_in = SObj(ir.Value, "x")
+    plain_in.fields["name"] = "x"
+    inputs = [plain_in] + inputs
+    g = SObj(ir.Graph, "graph")
+    nodes = [f"node{i}" for i in range(existing_nodes)]
+    order = list(nodes)
+    ver = ctx.int("opset_version")
+    from pyvc.values import SInt
+
+    def f_node(i):
+        raise AssertionError
+
+    def f_num():
+        raise AssertionError
+
+    def f_ins(ref, new):
+        raise AssertionError
+
+    def f_app(n):
+        raise AssertionError
+    I.models[f_node] = lambda interp, i: order[i]
+    I.models[f_num] = lambda interp: len(order)
+
+    def m_insert(interp, ref, new):
+        k = order.index(ref)
+        order[k:k] = list(new)
+    I.models[f_ins] = m_insert
+    I.models[f_app] = lambda interp, n: order.append(n)
+    inits = {v.fields["name"]: v for v in vals}
+    g.fields.update(inputs=inputs, initializers=inits, opset_imports=({"": SInt(ver)} if ctx.choose(2, "default opset imported") == 0 else {}),
+                    node=f_node, num_nodes=f_num, insert_before=f_ins, append=f_app)
+    made = []
+
+    def m_node(interp, domain, op_type, inputs=(), attributes=(), outputs=(), version=None, name=None, **k):
+        n = SObj(ir.Node, "constant")
+        n.fields.update(domain=domain, op_type=op_type, inputs=list(inputs), attributes=list(attributes), outputs=list(outputs), version=version, name=name)
+        made.append(n)
+        return n
+    I.models[ir.Node] = m_node
+    I.models[ir.Attr] = lambda interp, name, type_, value, *a, **k: ("attr", name, type_, value)
+    to_lift = [v for v in vals if not v.is_input]
+    try:
+        I.run_closure(I.closure_of(b.lift_initializers_to_constants), [g], {})
+    except PyRaise as e:
+        ctx.check("C18.builder.lift_initializers.raises_only_for_an_initializer_without_data", isinstance(e.exc, ValueError) and any(not v.has_data for v in to_lift), CL_UNIQ)
+        return
+    ctx.check("C18.builder.lift_initializers.initializer_without_data_is_reported", all(v.has_data for v in to_lift), "C18")
+    ctx.check("C18.builder.lift_initializers.only_explicit_inputs_stay_initializers", set(inits) == {v.fields["name"] for v in vals if v.is_input} and
+              all(inits[v.fields["name"]] is v for v in vals if v.is_input), "C18: 'functions called as nodes' — a function body has no initializers")
+    ok = len(made) == len(to_lift) and all(n.fields["op_type"] == "Constant" and n.fields["domain"] == "" and n.fields["inputs"] == [] and
+                                            len(n.fields["outputs"]) == 1 and n.fields["outputs"][0] is v and
+                                            n.fields["attributes"] == [("attr", "value", ir.AttributeType.TENSOR, v.fields["const_value"])]
+                                            for n, v in zip(made, to_lift))
+    ctx.check("C18.builder.lift_initializers.each_lifted_value_is_the_output_of_one_constant_node_with_its_tensor", ok,
+              "C18: 'computes exactly the sequence of operator calls that was traced' — value identity is preserved, the data is the initializer's")
+    ctx.check("C18.builder.lift_initializers.constants_precede_every_existing_node_and_nothing_is_lost", order == made + nodes, "C18: 'a valid model' — defined before use")
+    ctx.check("C18.builder.lift_initializers.constant_nodes_have_distinct_names", len({n.fields["name"] for n in made}) == len(made), CL_UNIQ)
+
+
+SCENARIOS.append(Scenario("C18.builder.lift_initializers", s_lift_initializers, F("lift_initializers_to_constants"), kind="bounded",
+                          bound="<= 3 initializers (each with/without data, input or not), <= 2 existing nodes; opset version symbolic",
+                          trusted=["ir.Graph.node / num_nodes / insert_before / append (onnx_ir)"]))
